@@ -71,6 +71,17 @@ def gen_family(r, sym_ok=True, ill_bias=0.5, var_names=("v",)):
         else:
             params[r.randrange(len(params))]["toks"] = chain
         has_sym = True
+    kwdep = None
+    if sym_ok and n >= 2 and r.random() < 0.1:
+        # one parameter's only axis is a symbolic function of a name that ANOTHER parameter binds: siblings keep the binder before
+        # the dependent one in the signature; some declare both keyword-only, the binder with a default value
+        i, j = r.sample(range(n), 2)
+        x = r.choice(("a", "b", "c"))
+        if not any(t["kind"] == "named" and t["name"] == x and not t.get("b") for t in params[i]["toks"]):
+            params[i]["toks"] = [{"kind": "named", "name": x, "b": False}]
+        params[j]["toks"] = [{"kind": "sym", "expr": r.choice((f"{x}+1", f"2*{x}")), "b": False}]
+        kwdep = {"binder": i, "dep": j}
+        has_sym = True
     ret = {"toks": ret_toks, "atype": r.choice(("np", "np", "duck")), "dtype": r.choice(("Float", "Shaped"))}
     vals = []
     for p in params + [ret]:
@@ -105,7 +116,8 @@ def gen_family(r, sym_ok=True, ill_bias=0.5, var_names=("v",)):
     for p in params + [ret]:
         vt = "np" if p["atype"] == "np" else "duck"
         vals2.append({"t": vt, "s": g.shape_for(p["toks"], rot, p_bad=0.0, p_rank=0.0), "d": "float32"})
-    return {"params": params, "ret": ret, "vals": vals, "vals2": vals2, "has_sym": has_sym, "perturb": sorted(kinds) or ["none"], "k": 2}
+    return {"params": params, "ret": ret, "vals": vals, "vals2": vals2, "has_sym": has_sym, "perturb": sorted(kinds) or ["none"], "k": 2,
+            "kwdep": kwdep}
 
 
 def family_scenario(seed, fam, r, max_perms=4, styles_per_perm=3, with_dc=True, only_new=False, same_name=False):
@@ -126,6 +138,12 @@ def family_scenario(seed, fam, r, max_perms=4, styles_per_perm=3, with_dc=True, 
         r.shuffle(q)
         if q not in perms:
             perms.append(q)
+    kd = fam.get("kwdep")
+    if kd:
+        for q in perms:  # the binder stays before the dependent parameter
+            bi, di = q.index(kd["binder"]), q.index(kd["dep"])
+            if bi > di:
+                q[bi], q[di] = q[di], q[bi]
     need_k = any("{k}" in t.get("expr", "") for t in fam["ret"]["toks"])
     for pi, perm in enumerate(perms):
         choices = [s for s in STYLES if s[0] == "new"] if only_new else STYLES
@@ -139,7 +157,16 @@ def family_scenario(seed, fam, r, max_perms=4, styles_per_perm=3, with_dc=True, 
             args = [({"t": "int", "v": fam["k"]} if nm == "k" else V[[p["name"] for p in fam["params"]].index(nm)])
                     for nm, _ in params]
             fns[fid] = {"style": style, "tc": tc, "kind": "fn", "params": params, "ret": ann_of(fam["ret"])}
-            if r.random() < 0.15:
+            if kd and r.random() < 0.6:
+                # keyword-only from the binder on; the binder has a default: def f(x0, *, x1: "a" = <array>, x2: "a+1")
+                pnames = [nm for nm, _ in params]
+                bname = fam["params"][kd["binder"]]["name"]
+                bpos = pnames.index(bname)
+                fns[fid]["kwonly"] = bpos
+                fns[fid]["defaults"] = {bname: V[kd["binder"]]}
+                # (the argument is always passed explicitly: typecheckers do not check default values, so an omitted binder
+                # binds nothing and the dependent axis is then legitimately an AnnotationError)
+            elif r.random() < 0.15:
                 fns[fid]["posonly"] = r.randrange(1, len(params) + 1)  # def f(x0, x1, /, x2): one more calling convention
             if same_name:
                 # redefinitions of 'the same' function: one name, parameters named by POSITION, so that the same
